@@ -49,6 +49,10 @@ def generate(prop, seed, tier):
         G.ensure_internal_node(spec, g, 'pos')
     if g.random() < 0.3:
         G.add_closure_nt(spec, g, 'small')
+    if not vit and g.random() < 0.12:
+        spec = G.ring_chord_spec(g, 'small')
+    if not vit and g.random() < 0.3:
+        G.add_onehot_terminals(spec, g)
     ops = []
     for i in range(g.randrange(4, 15)):
         ops.append({'uid': i, 'op': g.choice(OPS), 'a': [g.randrange(1 << 16) for _ in range(6)]})
@@ -137,6 +141,29 @@ class Machine:
         self.nrep = 0
         self.nops = 0
 
+    def semiring(self, sem, choice):
+        """semiring objects are caller-owned and normally live across many queries: one pooled object per kind, reused by most
+        queries (a fresh one now and then)"""
+        pool = self.__dict__.setdefault('sems', {})
+        if sem not in pool or choice % 4 == 0:
+            S = semiring_obj(sem, torch.float64)
+            if sem not in pool:
+                pool[sem] = S
+            else:
+                return S
+        self.c.inc('probe.semiring-object-reused')
+        return pool[sem]
+
+    def sem_snap(self):
+        out = {}
+        for name, S in self.__dict__.get('sems', {}).items():
+            for k_, v_ in vars(S).items():
+                if isinstance(v_, torch.Tensor):
+                    out[(name, k_)] = (tuple(v_.shape), str(v_.dtype), v_.detach().cpu().numpy().tobytes())
+                elif v_ is None:
+                    out[(name, k_)] = None
+        return out
+
     def snaps(self):
         return [fgg_snap(x['g']) for x in self.fggs]
 
@@ -161,6 +188,14 @@ class Machine:
                                 what += ',weight-bytes'
                             break
                 V('input-mutated', [opname, what], f'{opname} changed grammar #{i} ({self.fggs[i]["kind"]}) in {keys}.{detail}')
+        # the semiring objects the caller keeps across queries are inputs too: a tensor they hold (a cached constant, say)
+        # must not change value once it exists (a value that appears where there was none is a lazily filled cache)
+        sem_after = self.sem_snap()
+        for k_, v_ in getattr(self, 'sem_before', {}).items():
+            if v_ is not None and sem_after.get(k_) is not None and sem_after[k_] != v_:
+                self.sem_before = sem_after
+                V('input-mutated', [opname, 'semiring-object'], f'{opname} changed the tensor held in attribute {k_[1]!r} of the caller\'s {k_[0]} semiring object')
+        self.sem_before = sem_after
         if not torch.is_grad_enabled():
             torch.set_grad_enabled(True)
             V('global-state-changed', [opname, 'grad-mode'], f'{opname} left autograd recording disabled for the rest of the process')
@@ -274,7 +309,7 @@ class Machine:
         g = self.weights_for(x, sem) if len(self.fggs) < 8 or ('sem_' + sem) in x else x['g']
         if g is x['g']:
             sem = 'real'
-        S = semiring_obj(sem, torch.float64)
+        S = self.semiring(sem, a[-1])
         key = ('sum_products' if all_ else 'sum_product', id(g), sem, method, kmax)
         before = self.snaps()
         try:
